@@ -108,7 +108,10 @@ def gen_case(rng, cid, tier):
         elif r < 0.88:
             pt = rng.randrange(2)
             nd = meshes[cur]["Nn"] * dof_n[pt]
-            ops.append({"op": "adddir", "pt": pt, "dofs": [rng.randrange(nd) for _ in range(rng.randint(1, 3))]})
+            dd = [rng.randrange(nd) for _ in range(rng.randint(1, 3))]
+            if rng.random() < 0.4:
+                dd.append(rng.choice(dd))      # a dof entered twice counts once in Ndof
+            ops.append({"op": "adddir", "pt": pt, "dofs": dd})
         elif r < 0.93:
             ops.append({"op": "bcinit"})
         else:
@@ -133,7 +136,7 @@ def renumbered(case, rng, cid):
     new["conn"] = {str(g["gid"]): g["connect"] for m in new["meshes"] for g in m["groups"]}
     for op in new["ops"]:
         if op["op"] == "adddir":
-            pass  # only the count matters for Ndof
+            pass  # only the number of distinct dofs matters for Ndof
     return new, perms
 
 
@@ -174,7 +177,7 @@ def emit_defs(case):
         elif k == "addlag":
             ops.append("OAddBc %s (BLag %d)" % (V, op["pt"]))
         elif k == "adddir":
-            ops.append("OAddBc %s (BDir %d %d%%nat)" % (V, op["pt"], len(op["dofs"])))
+            ops.append("OAddBc %s (BDir %d %s)" % (V, op["pt"], zl(op["dofs"])))
         elif k == "bcinit":
             ops.append("OBcInit %s" % V)
         elif k == "needupdate":
